@@ -202,6 +202,7 @@ func genWorkload(t *rapid.T, cfg wlCfg) *Workload {
 		if rapid.Bool().Draw(t, "bigKind") {
 			// one big page
 			n := rapid.IntRange(2000, 4000).Draw(t, "bigN")
+			mib := false
 			switch rapid.IntRange(0, 5).Draw(t, "bigger") {
 			case 2:
 				n = rapid.IntRange(8200, 9000).Draw(t, "biggerN") // level runs beyond 8192 (three-byte run headers)
@@ -209,9 +210,17 @@ func genWorkload(t *rapid.T, cfg wlCfg) *Workload {
 			case 3:
 				// exactly 4096 / 8192 records in one page: fixed-width pages of exactly 32 KiB x m
 				n = rapid.SampledFrom([]int{4096, 8192}).Draw(t, "exactN")
+			case 4:
+				// string pages beyond 1 MiB (4200..4800 strings of up to 900 bytes in one page)
+				n = rapid.IntRange(4200, 4800).Draw(t, "mibN")
+				g.MaxStr = 900
+				mib = true
 			}
 			// page size 0 = the writer's default (MaxPageSize not passed): 1000 records per page
 			w.PageSize = rapid.SampledFrom([]int{10000, 10000, 1000, 700, 0}).Draw(t, "bigPage")
+			if mib {
+				w.PageSize = 10000
+			}
 			if n == 4096 || n == 8192 {
 				w.PageSize = n
 			}
